@@ -42,6 +42,9 @@ pub struct Rule {
     pub block: (String, String),
     pub until: (String, String),
     pub satisfied: bool,
+    /// the rule only becomes active once some thread (role prefix, site prefix) has executed this
+    pub after: Option<(String, String)>,
+    pub armed: bool,
 }
 
 #[derive(Clone, Debug, PartialEq)]
@@ -138,11 +141,24 @@ impl Sched {
             block: (block.0.to_string(), block.1.to_string()),
             until: (until.0.to_string(), until.1.to_string()),
             satisfied: false,
+            after: None,
+            armed: true,
+        });
+    }
+
+    /// "once `after` has happened, hold `block` until `until` has happened"
+    pub fn add_rule_after(&self, after: (&str, &str), block: (&str, &str), until: (&str, &str)) {
+        self.st.lock().unwrap().rules.push(Rule {
+            block: (block.0.to_string(), block.1.to_string()),
+            until: (until.0.to_string(), until.1.to_string()),
+            satisfied: false,
+            after: Some((after.0.to_string(), after.1.to_string())),
+            armed: false,
         });
     }
 
     fn rule_blocked(st: &State, t: &TInfo) -> bool {
-        st.rules.iter().any(|r| !r.satisfied && t.role.starts_with(&r.block.0) && t.site.starts_with(&r.block.1))
+        st.rules.iter().any(|r| r.armed && !r.satisfied && t.role.starts_with(&r.block.0) && t.site.starts_with(&r.block.1))
     }
 
     pub fn starve(&self, role: Option<&str>) {
@@ -177,6 +193,20 @@ impl Sched {
                     .filter(|(_, t)| t.status == Status::Parked && !Self::rule_blocked(&st, t))
                     .map(|(k, _)| *k)
                     .collect();
+                if parked.is_empty() {
+                    let blocked = st.threads.values().any(|t| t.status == Status::Parked && Self::rule_blocked(&st, t));
+                    let running = st.threads.values().any(|t| t.status == Status::Running);
+                    if blocked && !running && now.duration_since(st.last_change) > Duration::from_millis(60) {
+                        // the awaited event cannot happen (the code under test orders these steps differently): a forced
+                        // schedule that is impossible is simply dropped
+                        for r in st.rules.iter_mut() {
+                            if r.armed && !r.satisfied {
+                                r.satisfied = true;
+                            }
+                        }
+                        st.last_change = now;
+                    }
+                }
                 if !parked.is_empty() {
                     let choice: Option<ThreadId> = match st.policy.clone() {
                         Policy::Free => parked.iter().min_by_key(|k| st.threads[k].parked_at).copied(),
@@ -232,7 +262,7 @@ impl Sched {
         let mut cands: Vec<ThreadId> = parked.to_vec();
         cands.sort_by_key(|k| st.threads[k].tid);
         if let Some(v) = &st.starve {
-            let others: Vec<ThreadId> = cands.iter().filter(|k| &st.threads[k].role != v).copied().collect();
+            let others: Vec<ThreadId> = cands.iter().filter(|k| !st.threads[k].role.starts_with(v.as_str())).copied().collect();
             if !others.is_empty() && st.rng.gen_bool(0.9) {
                 cands = others;
             }
@@ -260,8 +290,15 @@ impl Sched {
         };
         let site = if ev.site == "atomic" { format!("atomic.{}", ev.op) } else { ev.site.to_string() };
         for r in st.rules.iter_mut() {
-            if !r.satisfied && role.starts_with(&r.until.0) && site.starts_with(&r.until.1) {
+            if r.armed && !r.satisfied && role.starts_with(&r.until.0) && site.starts_with(&r.until.1) {
                 r.satisfied = true;
+            }
+            if !r.armed {
+                if let Some((ar, asite)) = &r.after {
+                    if role.starts_with(ar.as_str()) && site.starts_with(asite.as_str()) {
+                        r.armed = true;
+                    }
+                }
             }
         }
         st.log.push(Logged { seq, tid, role, ev: ev.clone(), user });
